@@ -45,6 +45,7 @@ func checkC03(c *Ctx) {
 	c03QueueAnswered(c)
 	// a response without the id of its request is not a well-formed answer to it (shared with C01)
 	c01IDProvenance(c, false)
+	poolAliasRule(c, "R-frame-owned")
 	c.R.Min("R-id-echo", 40)
 }
 
